@@ -179,12 +179,19 @@ def exc_info(e):
 
 
 def control_snapshot(pool):
-    c = pool._worker_comms
-    snap = {'map_running': pool._map_running, 'n_workers': len(pool._workers),
-            'cache_keys': sorted(k for k in pool._cache.keys()), 'initialized': c._initialized,
-            'keep_order': c._keep_order._v, 'exception_thrown': c._exception_thrown._f,
-            'task_idx': c._task_idx, 'last_completed': list(c._last_completed_task_worker_id)}
-    return snap
+    """the pool's between-calls control state (read from private attributes: only the C06 tie depends on it, so a field that cannot
+    be read is reported as None instead of failing the whole run)"""
+    c = getattr(pool, '_worker_comms', None)
+
+    def rd(f):
+        try:
+            return f()
+        except Exception:  # noqa
+            return None
+    return {'map_running': rd(lambda: pool._map_running), 'n_workers': rd(lambda: len(pool._workers)),
+            'cache_keys': rd(lambda: sorted(k for k in pool._cache.keys())), 'initialized': rd(lambda: c._initialized),
+            'keep_order': rd(lambda: c._keep_order._v), 'exception_thrown': rd(lambda: c._exception_thrown._f),
+            'task_idx': rd(lambda: c._task_idx), 'last_completed': rd(lambda: list(c._last_completed_task_worker_id))}
 
 
 def run_scenario(sc):
